@@ -1,1 +1,815 @@
-// reference expression evaluator (filled in below)
+//! Reference expression AST, renderers (fully / minimally parenthesised) and evaluator.
+//! Semantics follow property C03 and the README; everything the properties leave open evaluates to `Ev::Open`
+//! (no comparison is made for such cases).
+
+use std::cmp::Ordering;
+use std::collections::HashMap;
+
+use crate::refmodel::{cmp_int_real, ref_cmp, ref_eq};
+use crate::sut::RVal;
+
+#[derive(Clone, Debug, PartialEq)]
+pub enum Lit {
+    Null,
+    Int(i64),
+    Real(f64),
+    Text(String),
+    Bool(bool),
+}
+
+#[derive(Clone, Copy, Debug, PartialEq, Eq, Hash)]
+pub enum Bin {
+    Add,
+    Sub,
+    Mul,
+    Div,
+    Eq,
+    Ne,
+    Lt,
+    Le,
+    Gt,
+    Ge,
+    And,
+    Or,
+}
+
+impl Bin {
+    pub fn text(&self) -> &'static str {
+        match self {
+            Bin::Add => "+",
+            Bin::Sub => "-",
+            Bin::Mul => "*",
+            Bin::Div => "/",
+            Bin::Eq => "=",
+            Bin::Ne => "!=",
+            Bin::Lt => "<",
+            Bin::Le => "<=",
+            Bin::Gt => ">",
+            Bin::Ge => ">=",
+            Bin::And => "AND",
+            Bin::Or => "OR",
+        }
+    }
+    /// precedence level of the reference grammar (higher binds tighter)
+    pub fn level(&self) -> u8 {
+        match self {
+            Bin::Mul | Bin::Div => 7,
+            Bin::Add | Bin::Sub => 6,
+            Bin::Eq | Bin::Ne | Bin::Lt | Bin::Le | Bin::Gt | Bin::Ge => 5,
+            Bin::And => 2,
+            Bin::Or => 1,
+        }
+    }
+    pub fn all() -> [Bin; 12] {
+        [Bin::Add, Bin::Sub, Bin::Mul, Bin::Div, Bin::Eq, Bin::Ne, Bin::Lt, Bin::Le, Bin::Gt, Bin::Ge, Bin::And, Bin::Or]
+    }
+    pub fn is_cmp(&self) -> bool {
+        matches!(self, Bin::Eq | Bin::Ne | Bin::Lt | Bin::Le | Bin::Gt | Bin::Ge)
+    }
+    pub fn is_arith(&self) -> bool {
+        matches!(self, Bin::Add | Bin::Sub | Bin::Mul | Bin::Div)
+    }
+}
+
+#[derive(Clone, Debug, PartialEq)]
+pub enum E {
+    Lit(Lit),
+    Col(String),
+    Bin(Bin, Box<E>, Box<E>),
+    IsNull(Box<E>, bool), // (operand, negated)  x IS NULL / x IS NOT NULL
+    Not(Box<E>),
+    Neg(Box<E>),
+    In(Box<E>, Vec<E>, bool),
+    Case(Vec<(E, E)>, Box<E>),
+    Cast(Box<E>, &'static str),
+    Index(Box<E>, Box<E>),
+    Call(&'static str, Vec<E>),
+    Extract(&'static str, Box<E>),
+    Array(Vec<E>),
+}
+
+pub fn b(e: E) -> Box<E> {
+    Box::new(e)
+}
+
+fn lit_text(l: &Lit) -> String {
+    match l {
+        Lit::Null => "NULL".into(),
+        Lit::Int(i) => i.to_string(),
+        Lit::Real(r) => {
+            let s = format!("{:?}", r);
+            if s.contains('.') && !s.contains('e') {
+                s
+            } else {
+                format!("{:.1}", r)
+            }
+        }
+        Lit::Text(t) => format!("'{}'", t.replace('\\', "\\\\").replace('\'', "\\'")),
+        Lit::Bool(true) => "TRUE".into(),
+        Lit::Bool(false) => "FALSE".into(),
+    }
+}
+
+/// level of the outermost operator (atoms = 10). NOT = 3, IS/IN = 5 (comparison level), unary minus = 8, postfix = 9
+fn level(e: &E) -> u8 {
+    match e {
+        E::Lit(_) | E::Col(_) | E::Case(..) | E::Call(..) | E::Extract(..) | E::Array(_) => 10,
+        E::Cast(..) | E::Index(..) => 9,
+        E::Neg(_) => 8,
+        E::Bin(op, ..) => op.level(),
+        E::IsNull(..) | E::In(..) => 5,
+        E::Not(_) => 3,
+    }
+}
+
+impl E {
+    /// every compound sub-expression in parentheses
+    pub fn full(&self) -> String {
+        let p = |e: &E| -> String {
+            if level(e) >= 10 {
+                e.full()
+            } else {
+                format!("({})", e.full())
+            }
+        };
+        match self {
+            E::Lit(l) => lit_text(l),
+            E::Col(c) => c.clone(),
+            E::Bin(op, l, r) => format!("{} {} {}", p(l), op.text(), p(r)),
+            E::IsNull(x, neg) => format!("{} IS {}NULL", p(x), if *neg { "NOT " } else { "" }),
+            E::Not(x) => format!("NOT {}", p(x)),
+            E::Neg(x) => format!("- {}", p(x)),
+            E::In(x, vs, neg) => format!("{} {}IN ({})", p(x), if *neg { "NOT " } else { "" }, vs.iter().map(|v| p(v)).collect::<Vec<_>>().join(", ")),
+            E::Case(cl, el) => format!("CASE {} ELSE {} END", cl.iter().map(|(c, r)| format!("WHEN {} THEN {}", p(c), p(r))).collect::<Vec<_>>().join(" "), p(el)),
+            E::Cast(x, t) => format!("{}::{}", p(x), t),
+            E::Index(a, i) => format!("{}[{}]", p(a), p(i)),
+            E::Call(f, args) => format!("{}({})", f, args.iter().map(|a| p(a)).collect::<Vec<_>>().join(", ")),
+            E::Extract(part, x) => format!("EXTRACT({} FROM {})", part, p(x)),
+            E::Array(xs) => format!("ARRAY[{}]", xs.iter().map(|a| p(a)).collect::<Vec<_>>().join(", ")),
+        }
+    }
+
+    /// minimal parentheses under the reference grammar of property C13 (binary operators left-associative)
+    pub fn min(&self) -> String {
+        // child printed where a sub-expression of at least level `need` is required
+        let c = |e: &E, need: u8| -> String {
+            if level(e) >= need {
+                e.min()
+            } else {
+                format!("({})", e.min())
+            }
+        };
+        match self {
+            E::Lit(l) => lit_text(l),
+            E::Col(cn) => cn.clone(),
+            E::Bin(op, l, r) => format!("{} {} {}", c(l, op.level()), op.text(), c(r, op.level() + 1)),
+            E::IsNull(x, neg) => format!("{} IS {}NULL", c(x, 5), if *neg { "NOT " } else { "" }),
+            E::Not(x) => format!("NOT {}", c(x, 3)),
+            E::Neg(x) => format!("-{}", c(x, 8)),
+            E::In(x, vs, neg) => format!("{} {}IN ({})", c(x, 5), if *neg { "NOT " } else { "" }, vs.iter().map(|v| c(v, 1)).collect::<Vec<_>>().join(", ")),
+            E::Case(cl, el) => format!("CASE {} ELSE {} END", cl.iter().map(|(k, r)| format!("WHEN {} THEN {}", c(k, 1), c(r, 1))).collect::<Vec<_>>().join(" "), c(el, 1)),
+            E::Cast(x, t) => format!("{}::{}", c(x, 9), t),
+            E::Index(a, i) => format!("{}[{}]", c(a, 9), c(i, 1)),
+            E::Call(f, args) => format!("{}({})", f, args.iter().map(|a| c(a, 1)).collect::<Vec<_>>().join(", ")),
+            E::Extract(part, x) => format!("EXTRACT({} FROM {})", part, c(x, 1)),
+            E::Array(xs) => format!("ARRAY[{}]", xs.iter().map(|a| c(a, 1)).collect::<Vec<_>>().join(", ")),
+        }
+    }
+
+    pub fn columns(&self, out: &mut Vec<String>) {
+        match self {
+            E::Lit(_) => {}
+            E::Col(c) => {
+                if !out.contains(c) {
+                    out.push(c.clone())
+                }
+            }
+            E::Bin(_, l, r) | E::Index(l, r) => {
+                l.columns(out);
+                r.columns(out)
+            }
+            E::IsNull(x, _) | E::Not(x) | E::Neg(x) | E::Cast(x, _) | E::Extract(_, x) => x.columns(out),
+            E::In(x, vs, _) => {
+                x.columns(out);
+                for v in vs {
+                    v.columns(out)
+                }
+            }
+            E::Case(cl, el) => {
+                for (c, r) in cl {
+                    c.columns(out);
+                    r.columns(out)
+                }
+                el.columns(out)
+            }
+            E::Call(_, a) | E::Array(a) => {
+                for x in a {
+                    x.columns(out)
+                }
+            }
+        }
+    }
+}
+
+/// result of the reference evaluation
+#[derive(Clone, Debug)]
+pub enum Ev {
+    /// the expression has this value
+    Val(RVal),
+    /// the expression has no value on this row: the query must report an error
+    NoValue(&'static str),
+    /// the properties do not fix the outcome: nothing is compared
+    Open(&'static str),
+}
+
+pub type Row = HashMap<String, RVal>;
+
+fn truth(v: &RVal) -> Option<bool> {
+    match v {
+        RVal::Bool(b) => Some(*b),
+        RVal::Null => Some(false),
+        _ => None,
+    }
+}
+
+fn compare(op: Bin, l: &RVal, r: &RVal) -> Ev {
+    if l.is_null() || r.is_null() {
+        return Ev::Val(RVal::Bool(false));
+    }
+    let ord: Option<Ordering> = match (l, r) {
+        (RVal::Int(_), RVal::Int(_)) | (RVal::Real(_), RVal::Real(_)) | (RVal::Text(_), RVal::Text(_)) | (RVal::Ts(_), RVal::Ts(_)) | (RVal::Iv(_), RVal::Iv(_)) => {
+            if let (RVal::Real(x), RVal::Real(y)) = (l, r) {
+                if x.is_nan() || y.is_nan() {
+                    return Ev::Open("NaN in comparison");
+                }
+            }
+            ref_cmp(l, r)
+        }
+        (RVal::Int(x), RVal::Real(y)) => match cmp_int_real(*x, *y) {
+            Some(o) => Some(o),
+            None => return Ev::Open("NaN in comparison"),
+        },
+        (RVal::Real(x), RVal::Int(y)) => match cmp_int_real(*y, *x) {
+            Some(o) => Some(o.reverse()),
+            None => return Ev::Open("NaN in comparison"),
+        },
+        (RVal::Bool(_), RVal::Bool(_)) | (RVal::Array(_), RVal::Array(_)) => {
+            return match op {
+                Bin::Eq => Ev::Val(RVal::Bool(ref_eq(l, r))),
+                Bin::Ne => Ev::Val(RVal::Bool(!ref_eq(l, r))),
+                _ => Ev::Open("ordering of booleans / arrays"),
+            };
+        }
+        (RVal::Ts(_), RVal::Text(_)) | (RVal::Text(_), RVal::Ts(_)) => return Ev::Open("timestamp vs text literal comparison"),
+        _ => return Ev::NoValue("comparison of different types"),
+    };
+    let o = ord.unwrap();
+    Ev::Val(RVal::Bool(match op {
+        Bin::Eq => o == Ordering::Equal,
+        Bin::Ne => o != Ordering::Equal,
+        Bin::Lt => o == Ordering::Less,
+        Bin::Le => o != Ordering::Greater,
+        Bin::Gt => o == Ordering::Greater,
+        Bin::Ge => o != Ordering::Less,
+        _ => unreachable!(),
+    }))
+}
+
+fn arith(op: Bin, l: &RVal, r: &RVal) -> Ev {
+    match (l, r) {
+        (RVal::Null, RVal::Null) => Ev::Val(RVal::Null),
+        (RVal::Null, other) | (other, RVal::Null) => match other {
+            RVal::Int(_) | RVal::Real(_) | RVal::Iv(_) | RVal::Ts(_) => Ev::Val(RVal::Null),
+            _ => Ev::Open("arithmetic of NULL with a non-numeric value"),
+        },
+        (RVal::Int(x), RVal::Int(y)) => {
+            let v = match op {
+                Bin::Add => x.checked_add(*y),
+                Bin::Sub => x.checked_sub(*y),
+                Bin::Mul => x.checked_mul(*y),
+                Bin::Div => {
+                    if *y == 0 {
+                        return Ev::NoValue("integer division by zero");
+                    }
+                    x.checked_div(*y)
+                }
+                _ => unreachable!(),
+            };
+            match v {
+                Some(v) => Ev::Val(RVal::Int(v)),
+                None => Ev::NoValue("integer overflow"),
+            }
+        }
+        (RVal::Real(x), RVal::Real(y)) => {
+            if op == Bin::Div && *y == 0.0 {
+                return Ev::Open("REAL division by zero");
+            }
+            let v = match op {
+                Bin::Add => x + y,
+                Bin::Sub => x - y,
+                Bin::Mul => x * y,
+                Bin::Div => x / y,
+                _ => unreachable!(),
+            };
+            if !v.is_finite() {
+                return Ev::Open("REAL overflow");
+            }
+            Ev::Val(RVal::Real(v))
+        }
+        (RVal::Int(_), RVal::Real(_)) | (RVal::Real(_), RVal::Int(_)) => Ev::Open("mixed INT/REAL arithmetic"),
+        (RVal::Ts(t), RVal::Iv(i)) => match op {
+            Bin::Add => t.checked_add(*i).map(|v| Ev::Val(RVal::Ts(v))).unwrap_or(Ev::NoValue("timestamp overflow")),
+            Bin::Sub => t.checked_sub(*i).map(|v| Ev::Val(RVal::Ts(v))).unwrap_or(Ev::NoValue("timestamp overflow")),
+            _ => Ev::NoValue("timestamp * / interval"),
+        },
+        (RVal::Iv(i), RVal::Ts(t)) => match op {
+            Bin::Add => t.checked_add(*i).map(|v| Ev::Val(RVal::Ts(v))).unwrap_or(Ev::NoValue("timestamp overflow")),
+            Bin::Sub => Ev::Open("interval - timestamp"),
+            _ => Ev::NoValue("interval * / timestamp"),
+        },
+        (RVal::Ts(x), RVal::Ts(y)) => match op {
+            Bin::Sub => x.checked_sub(*y).map(|v| Ev::Val(RVal::Iv(v))).unwrap_or(Ev::NoValue("interval overflow")),
+            _ => Ev::NoValue("timestamp + * / timestamp"),
+        },
+        (RVal::Iv(x), RVal::Iv(y)) => match op {
+            Bin::Add => x.checked_add(*y).map(|v| Ev::Val(RVal::Iv(v))).unwrap_or(Ev::NoValue("interval overflow")),
+            Bin::Sub => x.checked_sub(*y).map(|v| Ev::Val(RVal::Iv(v))).unwrap_or(Ev::NoValue("interval overflow")),
+            _ => Ev::NoValue("interval * / interval"),
+        },
+        _ => Ev::NoValue("arithmetic on non-numeric types"),
+    }
+}
+
+macro_rules! val {
+    ($e:expr) => {
+        match $e {
+            Ev::Val(v) => v,
+            other => return other,
+        }
+    };
+}
+
+pub fn parse_ts(text: &str) -> Option<i64> {
+    // "%Y-%m-%d %H:%M:%S" in UTC (harness runs with TZ=UTC); own calendar arithmetic
+    let (d, t) = text.split_once(' ')?;
+    let dp: Vec<&str> = d.split('-').collect();
+    let tp: Vec<&str> = t.split(':').collect();
+    if dp.len() != 3 || tp.len() != 3 {
+        return None;
+    }
+    let num = |s: &str, maxlen: usize| -> Option<i64> {
+        if s.is_empty() || s.len() > maxlen || !s.chars().all(|c| c.is_ascii_digit()) {
+            None
+        } else {
+            s.parse().ok()
+        }
+    };
+    let (y, mo, da) = (num(dp[0], 4)?, num(dp[1], 2)?, num(dp[2], 2)?);
+    let (h, mi, s) = (num(tp[0], 2)?, num(tp[1], 2)?, num(tp[2], 2)?);
+    civil_to_micros(y, mo, da, h, mi, s, 0)
+}
+
+pub fn is_leap(y: i64) -> bool {
+    (y % 4 == 0 && y % 100 != 0) || y % 400 == 0
+}
+
+pub fn days_in_month(y: i64, m: i64) -> i64 {
+    match m {
+        1 | 3 | 5 | 7 | 8 | 10 | 12 => 31,
+        4 | 6 | 9 | 11 => 30,
+        2 => {
+            if is_leap(y) {
+                29
+            } else {
+                28
+            }
+        }
+        _ => 0,
+    }
+}
+
+/// proleptic Gregorian civil date/time (UTC) -> microseconds since the epoch; None when any part is out of range
+pub fn civil_to_micros(y: i64, m: i64, d: i64, h: i64, mi: i64, s: i64, us: i64) -> Option<i64> {
+    if !(1..=12).contains(&m) || d < 1 || d > days_in_month(y, m) || !(0..24).contains(&h) || !(0..60).contains(&mi) || !(0..60).contains(&s) || !(0..1_000_000).contains(&us) || !(-200_000..=200_000).contains(&y) {
+        return None;
+    }
+    // days from civil (Howard Hinnant's algorithm)
+    let yy = if m <= 2 { y - 1 } else { y };
+    let era = if yy >= 0 { yy } else { yy - 399 } / 400;
+    let yoe = yy - era * 400;
+    let mp = (m + 9) % 12;
+    let doy = (153 * mp + 2) / 5 + d - 1;
+    let doe = yoe * 365 + yoe / 4 - yoe / 100 + doy;
+    let days = era * 146097 + doe - 719468;
+    Some(((days * 24 + h) * 60 + mi) * 60_000_000 + s * 1_000_000 + us)
+}
+
+/// microseconds since epoch -> (y, m, d, h, mi, s, us) in UTC
+pub fn micros_to_civil(t: i64) -> (i64, i64, i64, i64, i64, i64, i64) {
+    let us = t.rem_euclid(1_000_000);
+    let secs = t.div_euclid(1_000_000);
+    let sod = secs.rem_euclid(86400);
+    let days = secs.div_euclid(86400);
+    let z = days + 719468;
+    let era = if z >= 0 { z } else { z - 146096 } / 146097;
+    let doe = z - era * 146097;
+    let yoe = (doe - doe / 1460 + doe / 36524 - doe / 146096) / 365;
+    let y = yoe + era * 400;
+    let doy = doe - (365 * yoe + yoe / 4 - yoe / 100);
+    let mp = (5 * doy + 2) / 153;
+    let d = doy - (153 * mp + 2) / 5 + 1;
+    let m = if mp < 10 { mp + 3 } else { mp - 9 };
+    let y = if m <= 2 { y + 1 } else { y };
+    (y, m, d, sod / 3600, (sod % 3600) / 60, sod % 60, us)
+}
+
+pub fn parse_interval(text: &str) -> Option<i64> {
+    let p: Vec<&str> = text.split(':').collect();
+    if p.len() != 3 {
+        return None;
+    }
+    let h: i64 = p[0].parse().ok()?;
+    let m: i64 = p[1].parse().ok()?;
+    let s: i64 = p[2].parse().ok()?;
+    h.checked_mul(3_600_000_000)?.checked_add(m.checked_mul(60_000_000)?)?.checked_add(s.checked_mul(1_000_000)?)
+}
+
+/// literal grammar of the declared types (used for casts and for extraction)
+pub fn parse_literal(ty: &str, text: &str) -> Option<RVal> {
+    match ty {
+        "int" => text.parse::<i64>().ok().map(RVal::Int),
+        "real" => text.parse::<f64>().ok().map(RVal::Real),
+        "boolean" => match text {
+            "true" => Some(RVal::Bool(true)),
+            "false" => Some(RVal::Bool(false)),
+            _ => None,
+        },
+        "text" => Some(RVal::Text(text.to_string())),
+        "timestamp" => parse_ts(text).map(RVal::Ts),
+        "interval" => parse_interval(text).map(RVal::Iv),
+        _ => None,
+    }
+}
+
+fn type_of(v: &RVal) -> &'static str {
+    match v {
+        RVal::Null => "null",
+        RVal::Int(_) => "int",
+        RVal::Real(_) => "real",
+        RVal::Bool(_) => "boolean",
+        RVal::Text(_) => "text",
+        RVal::Array(_) => "array",
+        RVal::Ts(_) => "timestamp",
+        RVal::Iv(_) => "interval",
+    }
+}
+
+pub fn eval(e: &E, row: &Row) -> Ev {
+    match e {
+        E::Lit(l) => Ev::Val(match l {
+            Lit::Null => RVal::Null,
+            Lit::Int(i) => RVal::Int(*i),
+            Lit::Real(r) => RVal::Real(*r),
+            Lit::Text(t) => RVal::Text(t.clone()),
+            Lit::Bool(x) => RVal::Bool(*x),
+        }),
+        E::Col(c) => match row.get(c) {
+            Some(v) => Ev::Val(v.clone()),
+            None => Ev::NoValue("unknown column"),
+        },
+        E::Bin(op, l, r) => {
+            if matches!(op, Bin::And | Bin::Or) {
+                // both operands are evaluated for errors only as far as the implementation may short-circuit:
+                // an error in the right operand is Open when the left operand already decides the result
+                let lv = val!(eval(l, row));
+                let lt = match truth(&lv) {
+                    Some(t) => t,
+                    None => return Ev::Open("non-BOOLEAN operand of AND/OR"),
+                };
+                let decided = (*op == Bin::And && !lt) || (*op == Bin::Or && lt);
+                let rv = match eval(r, row) {
+                    Ev::Val(v) => v,
+                    Ev::NoValue(w) => return if decided { Ev::Open("error in an operand that short-circuit evaluation may skip") } else { Ev::NoValue(w) },
+                    o => return o,
+                };
+                let rt = match truth(&rv) {
+                    Some(t) => t,
+                    None => return Ev::Open("non-BOOLEAN operand of AND/OR"),
+                };
+                return Ev::Val(RVal::Bool(if *op == Bin::And { lt && rt } else { lt || rt }));
+            }
+            let lv = val!(eval(l, row));
+            let rv = val!(eval(r, row));
+            if op.is_cmp() {
+                compare(*op, &lv, &rv)
+            } else {
+                arith(*op, &lv, &rv)
+            }
+        }
+        E::IsNull(x, neg) => {
+            let v = val!(eval(x, row));
+            Ev::Val(RVal::Bool(v.is_null() != *neg))
+        }
+        E::Not(x) => {
+            let v = val!(eval(x, row));
+            match v {
+                RVal::Bool(t) => Ev::Val(RVal::Bool(!t)),
+                RVal::Null => Ev::Open("NOT applied to NULL"),
+                _ => Ev::NoValue("NOT of a non-BOOLEAN"),
+            }
+        }
+        E::Neg(x) => {
+            let v = val!(eval(x, row));
+            match v {
+                RVal::Null => Ev::Val(RVal::Null),
+                RVal::Int(i) => i.checked_neg().map(|v| Ev::Val(RVal::Int(v))).unwrap_or(Ev::NoValue("integer overflow")),
+                RVal::Real(r) => Ev::Val(RVal::Real(-r)),
+                RVal::Iv(_) => Ev::Open("negated interval"),
+                _ => Ev::NoValue("unary minus on a non-numeric value"),
+            }
+        }
+        E::In(x, vs, neg) => {
+            let xv = val!(eval(x, row));
+            // x IN (v1, v2) = x = v1 OR x = v2 ; x NOT IN (v1, v2) = x != v1 AND x != v2
+            let mut acc = *neg;
+            let mut pending_error: Option<Ev> = None;
+            for v in vs {
+                let vv = val!(eval(v, row));
+                let c = compare(if *neg { Bin::Ne } else { Bin::Eq }, &xv, &vv);
+                match c {
+                    Ev::Val(RVal::Bool(t)) => {
+                        if *neg {
+                            acc = acc && t;
+                        } else {
+                            acc = acc || t;
+                        }
+                    }
+                    other => {
+                        if pending_error.is_none() {
+                            pending_error = Some(other);
+                        }
+                    }
+                }
+            }
+            if let Some(pe) = pending_error {
+                // a type mismatch inside the list: an error unless short-circuiting already decided
+                return match pe {
+                    Ev::NoValue(_) => Ev::Open("type mismatch inside an IN list (short-circuit dependent)"),
+                    o => o,
+                };
+            }
+            Ev::Val(RVal::Bool(acc))
+        }
+        E::Case(cl, el) => {
+            for (c, r) in cl {
+                let cv = val!(eval(c, row));
+                match truth(&cv) {
+                    Some(true) => return eval(r, row),
+                    Some(false) => {}
+                    None => return Ev::Open("non-BOOLEAN CASE condition"),
+                }
+            }
+            eval(el, row)
+        }
+        E::Cast(x, t) => {
+            let v = val!(eval(x, row));
+            match (&v, *t) {
+                (RVal::Text(s), ty) => match parse_literal(ty, s) {
+                    Some(v) => Ev::Val(v),
+                    None => Ev::NoValue("text is not a literal of the target type"),
+                },
+                (RVal::Null, _) => Ev::Open("cast of NULL"),
+                (v, ty) if type_of(v) == ty => Ev::Val(v.clone()),
+                (RVal::Int(i), "text") => Ev::Val(RVal::Text(i.to_string())),
+                (RVal::Bool(x), "text") => Ev::Val(RVal::Text(x.to_string())),
+                (_, "text") => Ev::Open("text rendering of REAL / timestamp / interval / array"),
+                (RVal::Int(_), "real") | (RVal::Real(_), "int") => Ev::Open("INT <-> REAL cast"),
+                (RVal::Iv(_), "int") | (RVal::Iv(_), "real") => Ev::Open("interval to number cast"),
+                _ => Ev::NoValue("cast between unrelated types"),
+            }
+        }
+        E::Index(a, i) => {
+            let av = val!(eval(a, row));
+            let iv = val!(eval(i, row));
+            match (av, iv) {
+                (RVal::Array(xs), RVal::Int(i)) => {
+                    if i >= 1 && (i as u64) <= xs.len() as u64 {
+                        Ev::Val(xs[(i - 1) as usize].clone())
+                    } else {
+                        Ev::Open("subscript out of range")
+                    }
+                }
+                (RVal::Null, _) | (_, RVal::Null) => Ev::Open("subscript of / with NULL"),
+                _ => Ev::NoValue("subscript on a non-array or with a non-INT index"),
+            }
+        }
+        E::Array(xs) => {
+            let mut vs = Vec::new();
+            for x in xs {
+                vs.push(val!(eval(x, row)));
+            }
+            let types: Vec<&str> = vs.iter().filter(|v| !v.is_null()).map(type_of).collect();
+            if types.is_empty() {
+                return Ev::NoValue("array of only NULLs has no element type");
+            }
+            if types.iter().any(|t| *t != types[0]) {
+                return Ev::NoValue("array elements of different types");
+            }
+            Ev::Val(RVal::Array(vs))
+        }
+        E::Extract(part, x) => {
+            let v = val!(eval(x, row));
+            match v {
+                RVal::Ts(t) => {
+                    let (y, m, d, h, mi, s, _) = micros_to_civil(t);
+                    Ev::Val(match *part {
+                        "year" => RVal::Int(y),
+                        "month" => RVal::Int(m),
+                        "day" => RVal::Int(d),
+                        "hour" => RVal::Int(h),
+                        "minute" => RVal::Int(mi),
+                        "second" => RVal::Int(s),
+                        "epoch" => RVal::Real((t.div_euclid(1000)) as f64 / 1000.0),
+                        _ => return Ev::NoValue("unknown EXTRACT part"),
+                    })
+                }
+                RVal::Null => Ev::Open("EXTRACT from NULL"),
+                _ => Ev::NoValue("EXTRACT from a non-timestamp"),
+            }
+        }
+        E::Call(f, args) => {
+            let mut vs = Vec::new();
+            for a in args {
+                vs.push(val!(eval(a, row)));
+            }
+            call(f, &vs)
+        }
+    }
+}
+
+fn call(f: &str, a: &[RVal]) -> Ev {
+    let any_null = a.iter().any(|v| v.is_null());
+    match (f, a) {
+        ("greatest", [x, y]) | ("least", [x, y]) => match (x, y) {
+            (RVal::Int(_), RVal::Int(_)) | (RVal::Real(_), RVal::Real(_)) | (RVal::Iv(_), RVal::Iv(_)) => {
+                if let (RVal::Real(p), RVal::Real(q)) = (x, y) {
+                    if p.is_nan() || q.is_nan() {
+                        return Ev::Open("NaN in greatest/least");
+                    }
+                }
+                let o = ref_cmp(x, y).unwrap();
+                let pick_x = if f == "greatest" { o != Ordering::Less } else { o != Ordering::Greater };
+                let v = if pick_x { x.clone() } else { y.clone() };
+                // -0.0 vs 0.0: either is acceptable
+                if let (RVal::Real(p), RVal::Real(q)) = (x, y) {
+                    if *p == 0.0 && *q == 0.0 {
+                        return Ev::Open("greatest/least of signed zeros");
+                    }
+                }
+                Ev::Val(v)
+            }
+            _ if any_null => Ev::Open("function of NULL"),
+            (RVal::Ts(_), RVal::Ts(_)) => Ev::Open("greatest/least of timestamps (not in README signature)"),
+            _ => Ev::NoValue("greatest/least argument types"),
+        },
+        ("abs", [x]) => match x {
+            RVal::Int(i) => i.checked_abs().map(|v| Ev::Val(RVal::Int(v))).unwrap_or(Ev::NoValue("integer overflow")),
+            RVal::Real(r) => Ev::Val(RVal::Real(r.abs())),
+            RVal::Iv(i) => i.checked_abs().map(|v| Ev::Val(RVal::Iv(v))).unwrap_or(Ev::Open("interval overflow")),
+            RVal::Null => Ev::Open("function of NULL"),
+            _ => Ev::NoValue("abs argument type"),
+        },
+        ("sqrt", [x]) => match x {
+            RVal::Real(r) => {
+                if *r < 0.0 {
+                    Ev::Open("sqrt of a negative number")
+                } else {
+                    Ev::Val(RVal::Real(r.sqrt()))
+                }
+            }
+            RVal::Null => Ev::Open("function of NULL"),
+            RVal::Int(_) => Ev::Open("sqrt(INT) (README: REAL)"),
+            _ => Ev::NoValue("sqrt argument type"),
+        },
+        ("pow", [x, y]) => match (x, y) {
+            (RVal::Real(p), RVal::Real(q)) => {
+                let v = p.powf(*q);
+                if v.is_finite() {
+                    Ev::Val(RVal::Real(v))
+                } else {
+                    Ev::Open("REAL overflow / domain")
+                }
+            }
+            _ if any_null => Ev::Open("function of NULL"),
+            (RVal::Int(_), RVal::Int(_)) => Ev::Open("pow(INT, INT) (README: REAL)"),
+            (RVal::Int(_), RVal::Real(_)) | (RVal::Real(_), RVal::Int(_)) => Ev::Open("pow with mixed INT/REAL"),
+            _ => Ev::NoValue("pow argument types"),
+        },
+        ("regexp_matches", [x, y]) => match (x, y) {
+            (RVal::Text(s), RVal::Text(p)) => match regex::Regex::new(p) {
+                Ok(re) => Ev::Val(RVal::Bool(re.is_match(s))),
+                Err(_) => Ev::NoValue("invalid regex"),
+            },
+            _ if any_null => Ev::Open("function of NULL"),
+            _ => Ev::NoValue("regexp_matches argument types"),
+        },
+        ("length", [x]) => match x {
+            RVal::Text(s) => Ev::Val(RVal::Int(s.chars().count() as i64)),
+            RVal::Null => Ev::Open("function of NULL"),
+            _ => Ev::NoValue("length argument type"),
+        },
+        ("upper", [x]) | ("lower", [x]) => match x {
+            RVal::Text(s) => Ev::Val(RVal::Text(if f == "upper" { s.to_uppercase() } else { s.to_lowercase() })),
+            RVal::Null => Ev::Open("function of NULL"),
+            _ => Ev::NoValue("upper/lower argument type"),
+        },
+        ("array_length", [x]) => match x {
+            RVal::Array(xs) => Ev::Val(RVal::Int(xs.len() as i64)),
+            RVal::Null => Ev::Open("function of NULL"),
+            _ => Ev::NoValue("array_length argument type"),
+        },
+        ("array_unique", [x]) => match x {
+            RVal::Array(xs) => {
+                let mut out: Vec<RVal> = Vec::new();
+                for v in xs {
+                    if !out.iter().any(|o| ref_eq(o, v)) {
+                        out.push(v.clone());
+                    }
+                }
+                out.sort_by(|p, q| ref_cmp(p, q).unwrap_or(Ordering::Equal));
+                Ev::Val(RVal::Array(out))
+            }
+            RVal::Null => Ev::Open("function of NULL"),
+            _ => Ev::NoValue("array_unique argument type"),
+        },
+        ("array_cat", [x, y]) => match (x, y) {
+            (RVal::Array(p), RVal::Array(q)) => {
+                let tp = p.iter().find(|v| !v.is_null()).map(type_of);
+                let tq = q.iter().find(|v| !v.is_null()).map(type_of);
+                if tp.is_some() && tq.is_some() && tp != tq {
+                    return Ev::NoValue("array_cat of different element types");
+                }
+                if tp.is_none() || tq.is_none() {
+                    return Ev::Open("array_cat with an array whose element type is not evident");
+                }
+                Ev::Val(RVal::Array(p.iter().chain(q.iter()).cloned().collect()))
+            }
+            _ if any_null => Ev::Open("function of NULL"),
+            _ => Ev::NoValue("array_cat argument types"),
+        },
+        ("array_append", [x, y]) | ("array_prepend", [y, x]) => match (x, y) {
+            (RVal::Array(p), v) if !v.is_null() => {
+                let tp = p.iter().find(|v| !v.is_null()).map(type_of);
+                if tp.is_none() {
+                    return Ev::Open("array whose element type is not evident");
+                }
+                if tp != Some(type_of(v)) {
+                    return Ev::NoValue("element of another type");
+                }
+                let mut out = p.clone();
+                if f == "array_append" {
+                    out.push(v.clone());
+                } else {
+                    out.insert(0, v.clone());
+                }
+                Ev::Val(RVal::Array(out))
+            }
+            _ if any_null => Ev::Open("function of NULL"),
+            _ => Ev::NoValue("array_append/prepend argument types"),
+        },
+        ("make_timestamp", vs) if vs.len() == 7 => {
+            let mut p = [0i64; 7];
+            for (i, v) in vs.iter().enumerate() {
+                match v {
+                    RVal::Int(x) => p[i] = *x,
+                    RVal::Null => return Ev::Open("function of NULL"),
+                    _ => return Ev::NoValue("make_timestamp argument types"),
+                }
+            }
+            match civil_to_micros(p[0], p[1], p[2], p[3], p[4], p[5], p[6]) {
+                Some(t) => Ev::Val(RVal::Ts(t)),
+                None => Ev::Open("make_timestamp with out-of-range parts (NULL or error)"),
+            }
+        }
+        ("date_trunc", [x, y]) => match (x, y) {
+            (RVal::Text(part), RVal::Ts(t)) => {
+                let (yy, m, d, h, mi, s, us) = micros_to_civil(*t);
+                let r = match part.as_str() {
+                    "year" => civil_to_micros(yy, 1, 1, 0, 0, 0, 0),
+                    "month" => civil_to_micros(yy, m, 1, 0, 0, 0, 0),
+                    "day" => civil_to_micros(yy, m, d, 0, 0, 0, 0),
+                    "hour" => civil_to_micros(yy, m, d, h, 0, 0, 0),
+                    "minute" => civil_to_micros(yy, m, d, h, mi, 0, 0),
+                    "second" => civil_to_micros(yy, m, d, h, mi, s, 0),
+                    "milliseconds" => civil_to_micros(yy, m, d, h, mi, s, us - us % 1000),
+                    "microseconds" => Some(*t),
+                    _ => return Ev::NoValue("unknown date_trunc part"),
+                };
+                r.map(|v| Ev::Val(RVal::Ts(v))).unwrap_or(Ev::Open("date_trunc range"))
+            }
+            _ if any_null => Ev::Open("function of NULL"),
+            _ => Ev::NoValue("date_trunc argument types"),
+        },
+        _ => Ev::NoValue("unknown function or wrong number of arguments"),
+    }
+}
